@@ -301,7 +301,7 @@ class DictGen:
         if self.cfg.get("tmpl_preset"):
             for k in PRESET_TEMPLATE_TARGETS:
                 ok, v = lookup(k, o)
-                if ok and isinstance(v, str) and template_refs(v):
+                if ok and has_templates(v):  # at any depth (a section put there by a shape change may hold one)
                     set_path(o, k, self.rng.choice(["a", "b", 1]))
         if not self.cfg.get("shape_change"):
             # no non-container value at a key the programs read through (open finding KF-scalar-at-section-prefix)
